@@ -75,7 +75,7 @@ def _ops():
         'groupselectmax': (1, lambda ts, key, kw: etl.groupselectmax(ts[0], key, 'v', **kw)),
         'mergeduplicates': (1, lambda ts, key, kw: etl.mergeduplicates(ts[0], key, **kw)),
         'fold': (1, lambda ts, key, kw: etl.fold(ts[0], key, zoo.FOLD2[1], **kw)),
-        'rowgroupmap': (1, lambda ts, key, kw: etl.rowgroupmap(ts[0], key, lambda k, rows: [k, len(list(rows))],
+        'rowgroupmap': (1, lambda ts, key, kw: etl.rowgroupmap(ts[0], key, lambda k, rows: [[k, len(list(rows))]],
                                                                header=['k', 'n'], **kw)),
         'pivot': (1, lambda ts, key, kw: etl.pivot(ts[0], 'k', 'a', 'v', list, **kw)),
         'unjoin_left': (1, lambda ts, key, kw: etl.unjoin(ts[0], 'v', key='k', **kw)[0]),
